@@ -110,8 +110,18 @@ def hygiene():
     return bad
 
 
-def print_assumptions(prop, work):
-    """Re-check Properties/<prop>.v (statements closed by `exact`) and capture Print Assumptions."""
+def print_assumptions(prop, work, extra=()):
+    """Re-check Properties/<prop>.v (statements closed by `exact`) and capture Print Assumptions; `extra`: further files of
+    Properties/ that belong to the property (theorems that import the first file)."""
+    theorems, res, rc, out = print_assumptions1(prop, work)
+    for e in extra:
+        t2, r2, rc2, out2 = print_assumptions1(e, work)
+        theorems, rc, out = theorems + t2, rc or rc2, out + out2
+        res.update(r2)
+    return theorems, res, rc, out
+
+
+def print_assumptions1(prop, work):
     src = os.path.join(COQ, 'theories', 'Properties', prop + '.v')
     text = open(src).read()
     theorems = re.findall(r'^\s*(?:Theorem|Lemma|Corollary)\s+(\w+)', text, flags=re.M)
@@ -170,7 +180,7 @@ SHARD_TIMEOUT = int(os.environ.get('VERIF_SHARD_SECONDS', '900'))
 CASE_TIMEOUT = int(os.environ.get('VERIF_CASE_SECONDS', '240'))
 
 
-def coq_eval(mod, terms, work, tag, what='failures'):
+def coq_eval(mod, terms, work, tag, what='failures', limit=None, fallback=True):
     """terms: list of Coq terms of type nat (judge codes).  Returns list of (index, code) with code != 0."""
     shards = []
     cur, cur_bytes, base = [], 0, 0
@@ -186,8 +196,10 @@ def coq_eval(mod, terms, work, tag, what='failures'):
     def one(k):
         base, ts = shards[k]
         fn = os.path.join(work, 'cases_%s_%d.v' % (tag, k))
-        rc, out = run_file(fn, ts, SHARD_TIMEOUT)
+        rc, out = run_file(fn, ts, limit or SHARD_TIMEOUT)
         resource = lambda rc_, out_: rc_ != 0 and (rc_ in (124, 137, 139, -9, -11) or 'Out of memory' in out_ or 'Stack overflow' in out_ or 'Error' not in out_)
+        if resource(rc, out) and not fallback:
+            raise RuntimeError('shard exceeded its budget of %s s' % limit)
         if resource(rc, out):
             # the shard did not finish within its budget: evaluate its cases one by one; a case that still does not finish gets
             # code 98 (the judge could not be evaluated on this observation - the correspondence is not established for it)
@@ -210,14 +222,18 @@ def coq_eval(mod, terms, work, tag, what='failures'):
         with open(fn, 'w') as f:
             f.write('From GT Require Import Base.Prelude Judge.Common %s.\n' % ' '.join(mod.COQ_IMPORTS))
             f.write('Definition results : list nat := [\n' + ';\n'.join(ts) + '\n].\n')
-            f.write('Eval vm_compute in (failures results).\n')
+            f.write('Definition fr : list (nat * nat) := Eval vm_compute in (failures results).\nEval vm_compute in fr.\nEval vm_compute in (length fr).\n')
         return sh(['timeout', '-s', 'KILL', str(limit), 'coqc', '-Q', os.path.join(COQ, 'theories'), 'GT', '-noglob', '-o', fn + 'o', fn])
 
     def parse(out):
         m = re.search(r'=\s*(.*?)\s*:\s*list \(nat \* nat\)', out, flags=re.S)
         if not m:
             raise RuntimeError('cannot parse coqc output:\n' + out[-2000:])
-        return [(int(a), int(b)) for a, b in re.findall(r'\((\d+),\s*(\d+)\)', m.group(1))]
+        got = [(int(a), int(b)) for a, b in re.findall(r'\(\s*(\d+)\s*,\s*(\d+)\s*\)', m.group(1))]   # Coq may break the line after '('
+        n = re.search(r'=\s*(\d+)\s*:\s*nat\s*$', out.strip())
+        if not n or int(n.group(1)) != len(got):                                     # the count printed by Coq itself must agree with what was parsed
+            raise RuntimeError('parsed %d failures, Coq counted %s:\n%s' % (len(got), n.group(1) if n else '?', out[-2000:]))
+        return got
 
     with cf.ThreadPoolExecutor(NPROC) as ex:
         parts = list(ex.map(one, range(len(shards))))
@@ -241,10 +257,10 @@ def load_known():
     return json.load(open(p))
 
 
-def evaluate(mod, prop, cases, seed, work, tag, recycle=False):
+def evaluate(mod, prop, cases, seed, work, tag, recycle=False, limit=None, fallback=True):
     obs = run_workers(prop, cases, seed, work, tag, recycle=recycle)
     terms = [mod.encode(c, o) for c, o in zip(cases, obs)]
-    fails = coq_eval(mod, terms, work, tag)
+    fails = coq_eval(mod, terms, work, tag, limit=limit, fallback=fallback)
     return obs, fails
 
 
@@ -258,7 +274,8 @@ def shrink(mod, prop, case, code, seed, work):
         if not cands:
             break
         try:
-            obs, fails = evaluate(mod, prop, cands, seed, work, 'shr%d' % rounds)
+            # a round that does not finish within what is left of the shrinking budget ends the shrinking (the case found so far is reported)
+            obs, fails = evaluate(mod, prop, cands, seed, work, 'shr%d' % rounds, limit=max(20, int(deadline - time.time()) + 20), fallback=False)
         except RuntimeError:
             break
         keep = [i for i, c in fails if c == code]
@@ -304,8 +321,9 @@ def main():
         print('HARNESS-ERROR: the judge for %s does not build' % prop)
         sys.exit(2)
     extra = getattr(mod, 'EXTRA_TARGETS', [])
-    okp, logp = make(['theories/Properties/%s.vo' % prop] + extra)
-    theorems, pa, parc, paout = print_assumptions(prop, work) if okp else (re.findall(r'^\s*(?:Theorem|Lemma|Corollary)\s+(\w+)', open(os.path.join(COQ, 'theories', 'Properties', prop + '.v')).read(), flags=re.M), {}, 1, logp)
+    xprops = list(getattr(mod, 'EXTRA_PROPERTIES', []))
+    okp, logp = make(['theories/Properties/%s.vo' % p_ for p_ in [prop] + xprops] + extra)
+    theorems, pa, parc, paout = print_assumptions(prop, work, xprops) if okp else ([t for p_ in [prop] + xprops for t in re.findall(r'^\s*(?:Theorem|Lemma|Corollary)\s+(\w+)', open(os.path.join(COQ, 'theories', 'Properties', p_ + '.v')).read(), flags=re.M)], {}, 1, logp)
     bad = hygiene()
     closed = [t for t in theorems if pa.get(t, '').startswith('Closed under the global context')]
     std_axioms = {t: pa[t] for t in theorems if t in pa and t not in closed}
@@ -450,12 +468,17 @@ def main():
             if rp not in replay_paths:
                 replay_paths.append(rp)
             continue
-        small = shrink(mod, prop, cases[i], c, hs, work)
-        obs1, fails1 = evaluate(mod, prop, [small], hs, work, 'final')
-        if not fails1:
-            small = cases[i]
-            obs1 = [obs_by_seed[hs][i]]
-        expl = coq_explain(mod, mod.explain(small), work, 'x') if hasattr(mod, 'explain') else ''
+        try:
+            small = shrink(mod, prop, cases[i], c, hs, work)
+            obs1, fails1 = evaluate(mod, prop, [small], hs, work, 'final')
+            if not fails1:
+                small = cases[i]
+                obs1 = [obs_by_seed[hs][i]]
+            expl = coq_explain(mod, mod.explain(small), work, 'x') if hasattr(mod, 'explain') else ''
+        except Deadline:
+            # the overall budget ran out while the failing input was being minimised: report the input as found
+            _ABORT[0] = False
+            small, obs1, expl = cases[i], [obs_by_seed[hs][i]], '(not evaluated: the overall time budget ran out during minimisation)'
         h = hashlib.sha256(json.dumps(small, sort_keys=True).encode()).hexdigest()[:8]
         rp = os.path.join(VERIF, 'replays', '%s-%s.json' % (prop, h))
         with open(rp, 'w') as f:
@@ -480,7 +503,7 @@ def main():
     # --- thorough tier: independent re-check of the compiled property library with coqchk (prints the axioms it relies on)
     coqchk_summary = None
     if tier == 'thorough' and okp and os.environ.get('VERIF_NO_COQCHK') != '1':
-        rc_chk, out_chk = sh(['timeout', '1800', 'coqchk', '-silent', '-o', '-Q', os.path.join(COQ, 'theories'), 'GT', 'GT.Properties.%s' % prop])
+        rc_chk, out_chk = sh(['timeout', '1800', 'coqchk', '-silent', '-o', '-Q', os.path.join(COQ, 'theories'), 'GT', 'GT.Properties.%s' % prop] + ['GT.Properties.%s' % x for x in getattr(mod, 'EXTRA_PROPERTIES', [])])
         tail = out_chk.strip().split('\n')[-25:]
         coqchk_summary = {'exit': rc_chk, 'tail': tail}
         if rc_chk != 0:
